@@ -45,7 +45,7 @@ def build(tier, flavours):
     """Returns {flavour: binary path}. Everything is rebuilt from /repo's working tree on a hash miss."""
     sbeppc = build_sbeppc()
     tag_tier = "quick" if tier == "quick" else "thorough"
-    h = file_hash([os.path.join(REPO, "sbepp/src"), os.path.join(REPO, "sbeppc/src"), GEN, WIRE, SIM], "wire-%s-%d-%s" % (tag_tier, corpus_seed(), ",".join(sorted(flavours))))
+    h = file_hash([os.path.join(REPO, "sbepp/src"), os.path.join(REPO, "sbeppc/src"), GEN, WIRE, SIM], "wire-%s-%d-%s" % (tag_tier, corpus_seed(), repr(sorted((f, FLAVOURS[f]) for f in flavours))))
 
     def jobs(d):
         r = sh([sys.executable, os.path.join(GEN, "emit.py"), "--out", d, "--tier", tag_tier, "--seed", str(corpus_seed())], env=dict(os.environ, PYTHONHASHSEED="0"))
